@@ -96,7 +96,10 @@ class C03(Prop):
     deps = ["shape:modes_checksum", "shape:Frame::read_crc", "shape:ReaderCrc::read", "shape:ReaderCrc::seek"]
     rule = ("every byte value at every byte position of 3 background frames per format length; all single and double bit flips of valid "
             "squitters; random weight<=5 patterns and bursts<=24; address/interrogator overlays; non-trivial = distinct (frame, crc) pairs")
-    claim = "crc = remainder mod 0x1FFF409 of the leading bits xor last 24 bits (theorem over all byte strings); table regenerated from source"
+    claim = ("crc = remainder mod 0x1FFF409 of the leading bits xor last 24 bits (theorem over all byte strings); table regenerated from source and proved equal to the "
+             "polynomial remainders; crc = a iff last 24 bits = parity xor a (address / interrogator overlay); every burst of <= 24 bits and every pattern of 1..5 bit flips "
+             "in <= 112 bits has a non-zero syndrome (burst24_detected, weight5_detected: parity of g(1)=0 for odd weights, kernel-checked distinctness of the 6329 sums of at most "
+             "two residues x^k mod g for weights 2 and 4), lifted to Frame.crc (corrupted_squitter_crc_ne_zero)")
     def ops(self, rng, tier):
         ops = []
         bases = []
